@@ -475,7 +475,7 @@ func (x *Exec) mergeVal(a, b Value, c *Term) (Value, bool) {
 		return MapData{av.keys, vals}, true
 	case ChanData:
 		bv, ok := b.(ChanData)
-		if !ok || av.capacity != bv.capacity || len(av.q) != len(bv.q) {
+		if !ok || av.capacity != bv.capacity || len(av.q) != len(bv.q) || av.timer != bv.timer || av.stopped != bv.stopped || av.deadline != bv.deadline {
 			return nil, false
 		}
 		q := make([]Value, len(av.q))
@@ -486,7 +486,7 @@ func (x *Exec) mergeVal(a, b Value, c *Term) (Value, bool) {
 			}
 			q[i] = v
 		}
-		return ChanData{av.capacity, q}, true
+		return ChanData{capacity: av.capacity, q: q, timer: av.timer, deadline: av.deadline, stopped: av.stopped}, true
 	}
 	return nil, false
 }
